@@ -81,10 +81,7 @@ def shrinkLoads : Nat → Tree → List T
   | 0, _ => []
   | fuel+1, m =>
       if m.height > 0 ∧ (m.size ≤ m.shrinkBelow ∨ topEntryless m.root) then
-        childLoads m.root ++ shrinkLoads fuel
-          { m with root := T.shrink m.root, height := m.height - 1,
-                   shrinkBelow := if m.shrinkBelow > 1 then m.shrinkBelow / m.bf else m.shrinkBelow,
-                   growAfter := if m.shrinkBelow > 1 then m.growAfter / m.bf else m.growAfter }
+        childLoads m.root ++ shrinkLoads fuel (shrinkStep m)
       else []
 
 /-- loads of a successful `Delete` (descent + merge spine + shrink) -/
